@@ -491,6 +491,100 @@ example : viol1 10 ((runMax1 0 (loads1 [⟨8, 0, 0, 0⟩])).getD 1 0) ((maxFutur
   · decide
   · intro l hl; simp [loads1, insertAt1, startLoad1, after1, Dem1.change] at hl; omega
 
+/-! ## the route-level pre-check is a necessary condition (the repair of S43)
+
+`can_handle_demand_on_intervals` without an index tries the static delivery part of a mixed demand at the start and the
+rest at the end of the interval. If the job passes the activity-level test at ANY position `p`, both parts pass: the route
+level test never rejects a route in which the job has an admissible position. -/
+
+theorem runMax1_init_le (m : Int) (ls : List Int) (i : Nat) (hi : i < ls.length) : m ≤ (runMax1 m ls).getD i 0 := by
+  induction ls generalizing m i with
+  | nil => simp at hi
+  | cons b q ih =>
+    cases i with
+    | zero => simp [runMax1]; omega
+    | succ i =>
+      simp only [runMax1, List.getD_cons_succ]
+      have := ih (max m b) i (by simpa using hi)
+      omega
+
+theorem runMax1_mono0 (m : Int) (ls : List Int) (p : Nat) (hp : p < ls.length) :
+    (runMax1 m ls).getD 0 0 ≤ (runMax1 m ls).getD p 0 := by
+  cases ls with
+  | nil => simp at hp
+  | cons a r =>
+    have h1 := runMax1_init_le m (a :: r) p hp
+    have h2 := runMax1_ge m (a :: r) p hp a (by simp)
+    have h0 : (runMax1 m (a :: r)).getD 0 0 = max m a := by simp [runMax1]
+    rw [h0]
+    omega
+
+theorem getD_mem_drop (ls : List Int) (i p : Nat) (hpi : p ≤ i) (hi : i < ls.length) : ls.getD i 0 ∈ ls.drop p := by
+  rw [List.getD_eq_getElem?_getD, List.getElem?_eq_getElem hi]
+  simp only [Option.getD_some]
+  apply List.mem_drop_iff_getElem.mpr
+  exact ⟨i - p, by omega, by congr 1; omega⟩
+
+theorem maxFuture1_last_le (ls : List Int) (p : Nat) (hne : ls ≠ []) (hp : p < ls.length) :
+    (maxFuture1 ls).getD (ls.length - 1) 0 ≤ (maxFuture1 ls).getD p 0 := by
+  have hl : ls.length - 1 < ls.length := by
+    cases ls with
+    | nil => exact absurd rfl hne
+    | cons _ _ => simp
+  have hat := maxFuture1_attained ls (ls.length - 1) hl
+  have hsub : ∀ x ∈ ls.drop (ls.length - 1), x ∈ ls.drop p := by
+    intro x hx
+    obtain ⟨k, hk, rfl⟩ := List.mem_drop_iff_getElem.mp hx
+    apply List.mem_drop_iff_getElem.mpr
+    exact ⟨ls.length - 1 + k - p, by omega, by congr 1; omega⟩
+  exact maxFuture1_ge ls p hp _ (hsub _ hat)
+
+theorem cur_last_le_future (ls : List Int) (p : Nat) (hne : ls ≠ []) (hp : p < ls.length) :
+    ls.getD (ls.length - 1) 0 ≤ (maxFuture1 ls).getD p 0 := by
+  have hl : ls.length - 1 < ls.length := by
+    cases ls with
+    | nil => exact absurd rfl hne
+    | cons _ _ => simp
+  exact maxFuture1_ge ls p hp _ (getD_mem_drop ls (ls.length - 1) p (by omega) hl)
+
+/-- **the split route-level test is necessary**: an admissible position somewhere implies that the static delivery part
+    passes at the start and the rest passes at the end -/
+theorem route_precheck_necessary (cap : Int) (ds : List Dem1) (p : Nat) (x : Dem1) (hp : p ≤ ds.length)
+    (hnv : viol1 cap ((runMax1 0 (loads1 ds)).getD p 0) ((maxFuture1 (loads1 ds)).getD p 0)
+            ((loads1 ds).getD p 0) x = false) :
+    viol1 cap ((runMax1 0 (loads1 ds)).getD 0 0) ((maxFuture1 (loads1 ds)).getD 0 0) ((loads1 ds).getD 0 0)
+        ⟨0, 0, x.sd, 0⟩ = false ∧
+    viol1 cap ((runMax1 0 (loads1 ds)).getD ds.length 0) ((maxFuture1 (loads1 ds)).getD ds.length 0)
+        ((loads1 ds).getD ds.length 0) ⟨x.sp, x.dp, 0, x.dd⟩ = false := by
+  have hlen : (loads1 ds).length = ds.length + 1 := by simp [loads1, after1_length]
+  have hp' : p < (loads1 ds).length := by omega
+  have hne : loads1 ds ≠ [] := by simp [loads1]
+  have hL : (loads1 ds).length - 1 = ds.length := by omega
+  have hpast := runMax1_mono0 0 (loads1 ds) p hp'
+  have hfutL := maxFuture1_last_le (loads1 ds) p hne hp'
+  have hcurL := cur_last_le_future (loads1 ds) p hne hp'
+  rw [hL] at hfutL hcurL
+  unfold viol1 at hnv ⊢
+  simp only [Bool.or_eq_false_iff, Bool.and_eq_false_iff, bne_eq_false_iff_eq, decide_eq_false_iff_not,
+    Int.not_lt, Dem1.change] at hnv ⊢
+  obtain ⟨⟨hA, hB⟩, hC⟩ := hnv
+  refine ⟨⟨⟨?_, ?_⟩, ?_⟩, ⟨⟨?_, ?_⟩, ?_⟩⟩
+  · rcases hA with hA | hA
+    · exact Or.inl hA
+    · right; omega
+  · exact Or.inl trivial
+  · left; omega
+  · exact Or.inl trivial
+  · rcases hB with hB | hB
+    · exact Or.inl hB
+    · right; omega
+  · rcases hC with hC | ⟨hC1, hC2⟩
+    · left; omega
+    · right
+      have h1 := of_decide_eq_false hC1
+      have h2 := of_decide_eq_false hC2
+      constructor <;> (apply decide_eq_false; omega)
+
 /-! ### tie to the executable (vector) model for one dimension -/
 
 theorem hasDemandViolation_dim1 (cap past fut cur : Int) (x : Dem1) (st : Bool) :
